@@ -57,7 +57,10 @@ func (f FloatSchema) Units() *UnitsDefinition {
 func (f FloatSchema) Unserialize(data any) (any, error) {
 	unserialized, err := floatInputMapper(data, f.UnitsValue)
 	if err != nil {
-		return 0, err
+		return 0, &ConstraintError{
+			Message: fmt.Sprintf("'%v' (type %T) is not a valid value for a float", data, data),
+			Cause:   err,
+		}
 	}
 	return unserialized, f.Validate(unserialized)
 }
